@@ -21,6 +21,7 @@ RULE = (
     "common ancestor; a second query structure built for each subtree below the root (same node objects) answers for that subtree and leaves the first one intact; after a prune-and-regraft edit of the tree in place (all single moves up to 5 nodes) a structure built afterwards for the same root describes the new shape.  Nodes carry branch lengths 1, 0 or 2.5 (level and distance count edges, not lengths).  Range-minimum: all arrays over {0,1,2} of length 1..8 / 1..9, all (start, stop) with 0 <= start, stop <= len (empty ranges "
     "give None).  Random: trees up to 40 nodes with random arities (queries on 30 drawn tuples of 1-4 nodes), arrays up to 60 elements.  "
     "Non-trivial: tree with >=2 internal nodes / array of length >=2; distinct by SHA-1 of the shape/array."
+    '  Node labels are drawn from a small pool with repeats (queries are about node objects).'
 )
 ASSUMPTIONS = ["trees are not modified after the query structure is built (documented precondition)"]
 BUDGET = {"quick": {"random": 2000}, "thorough": {"random": 40000}}
